@@ -39,14 +39,16 @@ TableLines(npts, perline) == (npts + perline - 1) \div perline
 Dims == {<<2, 2>>, <<3, 3>>, <<2, 3>>, <<3, 2>>}
 Mats(r, c) == [(1..r) \X (1..c) -> (IF r * c = 9 /\ ~Big THEN 0..1 ELSE 0..2)]
 Sym(M, n) == \A i, j \in 1..n : M[<<i, j>>] = M[<<j, i>>]
-Form(M, r, c, colkind) == IF colkind = "plain" THEN 9 ELSE IF r # c THEN 2 ELSE IF Sym(M, r) THEN 6 ELSE 1
+\* column kinds: "plain" (column numbers), "dof" (columns on the SAME (id, dof) labels as the rows), "dof2" (columns on other DOF: a
+\* square array whose rows and columns live on different DOF is rectangular in the DMIG sense, whatever its values)
+Form(M, r, c, colkind) == IF colkind = "plain" THEN 9 ELSE IF r # c \/ colkind = "dof2" THEN 2 ELSE IF Sym(M, r) THEN 6 ELSE 1
 Entries(M, r, c, form) == {p \in (1..r) \X (1..c) : M[p] # 0 /\ (form = 6 => p[1] >= p[2])}
 Rebuild(E, M, r, c, form) == [p \in (1..r) \X (1..c) |->
      IF p \in E THEN M[p] ELSE IF form = 6 /\ <<p[2], p[1]>> \in E THEN M[<<p[2], p[1]>>] ELSE 0]
 
 VARIABLE q
 Init == CASE Mode = "lists" -> q \in UNION {{<<s, g>> : s \in {1, 9997, 99999900}, g \in [1..(n - 1) -> {1, 2}]} : n \in 1..MaxN}
-          [] Mode = "dmig" -> q \in UNION {{<<d, M, k>> : M \in Mats(d[1], d[2]), k \in {"dof", "plain"}} : d \in Dims}
+          [] Mode = "dmig" -> q \in UNION {{<<d, M, k>> : M \in Mats(d[1], d[2]), k \in {"dof", "plain", "dof2"}} : d \in Dims}
 Next == UNCHANGED q
 
 Ids == MkIds(q[1], q[2], 1)
